@@ -31,7 +31,12 @@ def run(ctx):
         "fft::interpolate_poly is modelled by its specification (inverse DFT); the correspondence compares the resulting coefficients with the real FFT output on every sequence assertion (the FFT itself is C09)",
         "B::get_root_of_unity(log2 n) has exact order n (checked numerically by the falsifier for every n and field; TWO_ADIC_ROOT_OF_UNITY order is C07/C08)",
         "usize is 64 bits (theorems assume n < 2^64)",
+        "translator-tied (model proved equal to rs2v output): single/periodic/sequence, validate_stride, is_single/is_periodic/is_sequence, overlaps_with, validate_trace_width, validate_trace_length, get_num_steps; hand-modelled and tied by correspondence only: apply, Ord::cmp, prepare_assertions, set_num_transition_exemptions, get_evaluation_degree and the field-level functions",
     ]
+    # integer-level functions of assertions/mod.rs are regenerated from the source on every run (coq/Gen/Assertions.v);
+    # Proofs/EnforceGen.v proves the hand model equal to the generated terms, so a source change that alters their
+    # meaning breaks either the translation (obligation translate:Assertions) or those proofs
+    ctx.rs2v(["Assertions"])
     ctx.audit_sources()
     ctx.coq_build("C16")
     if not quick:
